@@ -514,6 +514,18 @@ class EffectClient(Client):
                 return [s]
             if recv is not None and recv[:2] == ('self', 'primitive'):
                 return [s]
+            # a question put to the provider (``self.provider.check_x(pdu)``): a method of the provider class introduced after the
+            # inventory that touches neither transport, timer nor queues has no effect on the machine; its answer is opaque
+            ch_ = attr_chain(fn)
+            if ch_ and ch_[:2] == ('self', 'provider') and len(ch_) == 3:
+                pm_ = self.model.provider_cls.find_method(ch_[2])
+                if pm_ is not None and self.repo.is_helper(pm_) and not any(
+                        isinstance(n_, ast.Attribute) and n_.attr in ('dul_socket', 'timer', 'to_service_user', 'from_service_user', 'event',
+                                                                      'state_machine', 'primitive') and isinstance(n_.ctx, (ast.Store, ast.Del))
+                        or isinstance(n_, ast.Call) and isinstance(n_.func, ast.Attribute) and n_.func.attr in (
+                            'sendall', 'send', 'close', 'put', 'put_nowait', 'start', 'stop', 'restart', 'append', 'appendleft', 'connect', 'shutdown')
+                        for n_ in ast.walk(pm_.node)):
+                    return [s]
             raise AnalysisError('%s: unmodelled call %s inside state machine action'
                                 % (self.f.loc(call), norm(call)))
         # plain function / constructor call: no effect on the protocol machine
@@ -616,6 +628,10 @@ class EffectClient(Client):
                 c = self.canon(st.value)
                 if c == ('self', 'current_state'):
                     name = '<current>'
+                elif self.depth > 0:
+                    # a helper of the machine that answers a question (a hook returning a decision) rather than performing an
+                    # action: its value is opaque, its effects -- none were raised on the way here -- are kept
+                    name = '<value>'
                 else:
                     raise AnalysisError('%s: action returns %s, not a state constant'
                                         % (self.f.loc(st), norm(st.value)))
